@@ -86,6 +86,16 @@ class C15(PropBase):
                 # the writes of this history go through two long-lived writer objects taking turns (and some through throw-away ones)
                 seq = [(op, args + [rng.choice(['A', 'B', 'A', 'B', ''])]) if op.startswith('w_') else (op, args) for op, args in seq]
             out.extend(self.history(seq, hid))
+        # creation WITH data, update and set under the non-default path configuration: the data lives in that configuration's tree
+        other_cfgs = [pc[0] for pc in ctx['rawd']['path_configs'] if pc[0] != (ctx['rawd']['default_path_config'] or ctx['rawd']['path_configs'][0][0])]
+        for cfg_ in other_cfgs[:1]:
+            for n in (['F1', 'D1', 'A1'] if tier == 'quick' else sorted(withp)):
+                hid += 1
+                s = dl.ALPHABET[n]
+                seq = [('w_create', [cfg_, s, [['a', '1']]]), ('get_data_paths_new', [cfg_, ['s', s], [], 'str']), ('get_data_paths_new', ['', ['s', s], [], 'str']),
+                       ('w_create', ['', s, [['b', '2']]]), ('w_update', [cfg_, s, [['c', '3']]]), ('w_set', [cfg_, s, 'd', '4']),
+                       ('get_data_paths_new', [cfg_, ['s', s], [], 'str']), ('get_data_paths_new', ['', ['s', s], [], 'str'])]
+                out.extend(self.history(seq, hid, extra_reads=[s]))
         # two writer objects (as two tools or processes would hold) writing the same entity alternately: what is read is the overlay in call order
         for n in (['F1', 'D1', 'F2', 'G1'] if tier == 'quick' else sorted(withp)):
             hid += 1
@@ -134,17 +144,21 @@ class C15(PropBase):
         for h, lst in byh.items():
             if not h:
                 continue
-            created = set()      # sid strings successfully created
+            default_cfg = ctx['rawd']['default_path_config'] or ctx['rawd']['path_configs'][0][0]
+            norm = lambda cfg_: cfg_ or default_cfg
+            created_by = {}      # path configuration -> sid strings successfully created in its tree
+            created = created_by.setdefault(default_cfg, set())      # (the default configuration's tree: what the searches and exists() see)
             written = {}         # sid string -> list of (key, value) writes addressed to it, in order
             for c, o in lst:
                 if c.stream != 'history':
                     continue
                 if c.op == 'w_create':
                     s = c.args[1]
+                    mine_created = created_by.setdefault(norm(c.args[0]), set())
                     if o[0] == 'ok':
-                        if s in created:
+                        if s in mine_created:
                             fails.append((c, o, 'creating an existing entity succeeded')); break
-                        created.add(s)
+                        mine_created.add(s)
                         for k, v in c.args[2]:
                             written.setdefault(s, []).append((k, v))
                     elif o[1] != 'SpilException':
@@ -152,11 +166,11 @@ class C15(PropBase):
                 elif c.op == 'w_set':
                     if o[0] != 'ok' and o[1] != 'SpilException':
                         fails.append((c, o, 'set raised %r' % (o,))); break
-                    if o[0] == 'ok' and not on_disk(c.args[1], created):
+                    if o[0] == 'ok' and not on_disk(c.args[1], created_by.get(norm(c.args[0]), set())):
                         fails.append((c, o, 'set() on %r succeeded although neither it nor a descendant was created (created so far: %r)' % (c.args[1], sorted(created)))); break
                 elif c.op == 'w_update':
                     s = c.args[1]
-                    if o[0] == 'ok' and not on_disk(s, created):
+                    if o[0] == 'ok' and not on_disk(s, created_by.get(norm(c.args[0]), set())):
                         fails.append((c, o, 'update() of %r succeeded although neither it nor a descendant was created (created so far: %r)' % (s, sorted(created)))); break
                     if o[0] == 'ok':
                         for k, v in c.args[2]:
@@ -189,10 +203,10 @@ class C15(PropBase):
                     share = share_of(s)
                     # overlay, in call order, of everything written to the sidecar class of s
                     for cc, oo in lst:
-                        if cc.stream == 'history' and cc.op in ('w_create', 'w_update') and oo[0] == 'ok' and cc.args[1] in share:
+                        if cc.stream == 'history' and cc.op in ('w_create', 'w_update') and oo[0] == 'ok' and cc.args[1] in share and norm(cc.args[0]) == norm(c.args[0]):
                             for k, v in cc.args[2]:
                                 exp[k] = v
-                        if cc.stream == 'history' and cc.op == 'w_set' and oo[0] == 'ok' and cc.args[1] in share:
+                        if cc.stream == 'history' and cc.op == 'w_set' and oo[0] == 'ok' and cc.args[1] in share and norm(cc.args[0]) == norm(c.args[0]):
                             exp[cc.args[2]] = cc.args[3]
                     got = {k: v for k, v in rec.items() if k != 'sid'}
                     has_path = s not in (dl.ALPHABET['N1'], dl.ALPHABET['U1'])
